@@ -135,6 +135,8 @@ MUTANTS = [
     ("c05-revert-lf-per-node", "C05", R + "fkm_nonlinear.py",
      "            new_val = np.maximum(self._epsilon_max_LF.values, current_point.strain.values)",
      "            new_val = self._epsilon_max_LF.values if self._epsilon_max_LF.values[0] > current_point.strain.values[0] else current_point.strain.values"),
+    ("c05-revert-law-node-order", "C05", "pylife/materiallaws/notch_approximation_law.py",
+     "        return values_of_class.droplevel(\"class_index\").reindex(node_ids)\n", "        return values_of_class\n"),
     ("c05-strain-first-run-count", "C05", R + "fkm_nonlinear.py",
      "        # count number of strain values in the first run of the HCM algorithm\n        if self._run_index == 1:\n            self._n_strain_values_first_run += 1\n        return current_point\n\n    def _handle_case_b",
      "        return current_point\n\n    def _handle_case_b"),
